@@ -1,9 +1,56 @@
-/- driver handler of the `engine` stream (line protocol, see Main.lean) -/
+/- driver handler of the `engine` stream: the protocol-level recognisers run over what the real
+engine did (frame logs, histories, notification sequences) -/
 import AslModel.Drv.Util
+import AslModel.Ledger
+import AslModel.History
 namespace Asl.Drv.Engine
-open Asl
+open Asl Asl.Drv
+
+def frOf : Json → Option Fr
+  | .arr [.str ['d'], .num t] => some (.deliver t.toNat)
+  | .arr [.str ['a'], .num t] => some (.ack t.toNat)
+  | .arr [.str ['p']] => some .pub
+  | .arr [.str ['r']] => some .recw
+  | _ => none
+
+def frames : Json → Option (List Fr)
+  | .arr xs => xs.mapM frOf
+  | _ => none
+
+def evOf : Json → Option HEvent
+  | .arr [.num i, .num p, .num ts, .str ty, .str nm] =>
+    some { id := i.toNat, prev := p.toNat, ts := ts, type := ty, name := nm }
+  | _ => none
+
+def b (x : Bool) : Json := .bool x
 
 def handle : List String → String
+  | ["ledger", fs] =>
+    match (rd fs).bind frames with
+    | some fs =>
+      let l := Ledger.run fs
+      "ok\t" ++ js (.obj [(S "bad", b l.bad), (S "unacked", .arr (l.unacked.reverse.map (fun t => .num (Int.ofNat t))))])
+    | none => "unsupported"
+  | ["ordered", fs] =>
+    match (rd fs).bind frames with
+    | some fs => "ok\t" ++ js (b (stepOrdered fs))
+    | none => "unsupported"
+  | ["history", evs] =>
+    match rd evs with
+    | some (.arr xs) =>
+      match xs.mapM evOf with
+      | some h => "ok\t" ++ js (.obj [(S "wf", b (WFHistory h)), (S "numbered", b (numbered h 0)),
+          (S "ts", b (tsMonotone h)), (S "terminalLast", b (terminalLast h)),
+          (S "started", b (startsWithStarted h)), (S "brackets", b (bracketsOK [] h))])
+      | none => "unsupported"
+    | _ => "unsupported"
+  | ["notes", ns] =>
+    match rd ns with
+    | some (.arr xs) =>
+      match xs.mapM (fun j => match j with | .str s => some s | _ => none) with
+      | some l => "ok\t" ++ js (b (notesOK l))
+      | none => "unsupported"
+    | _ => "unsupported"
   | _ => "bad-op"
 
 end Asl.Drv.Engine
